@@ -1,0 +1,62 @@
+//go:build verif
+
+package analyzer
+
+import (
+	"golang.org/x/tools/go/analysis"
+)
+
+// VerifHook, when non-nil, is called at every specification-level action of
+// the analyzer (pass entry/return and the branches of prepareGocritic, the
+// latter while the global mutex is held). A hook may block, which lets
+// external conformance tooling drive concurrent passes through a chosen
+// interleaving. It must be assigned before any pass is started.
+var VerifHook func(ev string, pass *analysis.Pass)
+
+func verifPass(ev string, pass *analysis.Pass) {
+	if VerifHook != nil {
+		VerifHook(ev, pass)
+	}
+}
+
+func verifPrep(ev string) {
+	if VerifHook != nil {
+		VerifHook(ev, nil)
+	}
+}
+
+// VerifResetGlobals forgets the cached configuration and the
+// "init error already reported" latch, so that one process can replay
+// many initialization histories.
+func VerifResetGlobals() {
+	globalGocriticMu.Lock()
+	defer globalGocriticMu.Unlock()
+	globalGocritic = nil
+	globalInitErrorReported = false
+}
+
+// VerifState reports the cache and latch state (taken under the mutex).
+func VerifState() (cached, latch bool) {
+	globalGocriticMu.Lock()
+	defer globalGocriticMu.Unlock()
+	return globalGocritic != nil, globalInitErrorReported
+}
+
+// VerifFilter exposes the selection routine for conformance checking:
+// the names of the registered checkers selected by the current flag values.
+func VerifFilter() []string {
+	var names []string
+	for _, info := range filterCheckersList(registeredCheckers) {
+		names = append(names, info.Name)
+	}
+	return names
+}
+
+// VerifRegistered returns the names in the analyzer's registry snapshot.
+func VerifRegistered() []string {
+	var names []string
+	for _, info := range registeredCheckers {
+		names = append(names, info.Name)
+	}
+	return names
+}
